@@ -44,6 +44,10 @@ def families():
         F["unterminated_char_" + name] = (lambda e: lambda n: "char c = '" + e * n)(esc)
         F["bad_char_" + name] = (lambda e: lambda n: "char c = '" + e * n + "\\%';")(esc)
         F["char_then_continuation_" + name] = (lambda e: lambda n: "char c = '" + e * n + "\\\n")(esc)
+    # closed literals: the whole run is read, the closing quote fails the unterminated rules, other rules are tried after it
+    for name, esc in (("universal4", "\\u0041"), ("universal8", "\\U00000041"), ("hex", "\\x41"), ("octal", "\\101"), ("simple", "\\n"), ("plain", "ab")):
+        F["closed_char_" + name] = (lambda e: lambda n: "int c = '" + e * n + "';")(esc)
+        F["closed_string_" + name] = (lambda e: lambda n: "const char* s = \"" + e * n + "\";")(esc)
     F["digits"] = lambda n: "int x = " + "1" * n + ";"
     F["digits_sep"] = lambda n: "int x = 1" + "'1" * n + "z;"
     F["hex_digits_then_dot"] = lambda n: "int x = 0x" + "f'" * n + ".;"
